@@ -71,8 +71,9 @@ MUTATIONS = [
     ("wildcard arm", "src/raft/filestore/raftdata.rs",
      "            ClientRequest::CacheReq { req } => {\n                self.direct_cache_manager.do_send(req);\n            }",
      "            _ => {}", "refuse"),
-    ("leader arm stops awaiting", "src/raft/filestore/raftdata.rs", "self.table.send(req).await??;",
-     "self.table.do_send(req);", "mode_change"),
+    ("leader arm stops awaiting", "src/raft/filestore/raftdata.rs",
+     "                self.table.send(req).await??;\n                Ok(ClientResponse::Success)",
+     "                self.table.do_send(req);\n                Ok(ClientResponse::Success)", "mode_change"),
     ("replay swaps history ids", "src/raft/filestore/raftdata.rs",
      "                    history_id,\n                    history_table_id,\n                    op_time,\n                    op_user,\n                };\n                self.config.send(cmd).await.ok();",
      "                    history_id: history_table_id.unwrap_or_default(),\n                    history_table_id,\n                    op_time,\n                    op_user,\n                };\n                self.config.send(cmd).await.ok();",
@@ -277,9 +278,18 @@ def req_class(q):
     return 8
 
 
-def abstract(case):
-    """(variant, 16 * number + class) per request, for the model's trace instance"""
-    return [(variant_of(q), 16 * (i + 1) + req_class(q)) for i, q in enumerate(case["reqs"])]
+def abstract(case, leader_results=None):
+    """(variant, 64 * number + 16 * handler_error + class) per request, for the model's trace instance;
+    handler_error: the target actor's handler answered Err on the leader (observed; only used for the
+    last_applied bookkeeping: `.await??` then skips SaveLastAppliedLog)"""
+    out = []
+    for i, q in enumerate(case["reqs"]):
+        cl = req_class(q)
+        err = 0
+        if leader_results is not None and i < len(leader_results) and leader_results[i] == "err" and cl != 0:
+            err = 1
+        out.append((variant_of(q), 64 * (i + 1) + 16 * err + cl))
+    return out
 
 
 def coq_abs(ab):
@@ -304,10 +314,11 @@ def actor_views(dump):
             a = "AConfig"
         snap.setdefault(a, []).append(r)
     ns = dump.get("namespace", {})
+    seqs = dump.get("sequences") or []
     return {
         "AIndex": [dump.get("index")],
-        "ASequence": [dump.get("sequences"), snap.get("ASequence")],
-        "AConfig": [dump.get("config"), snap.get("AConfig")],
+        "ASequence": [[x for x in seqs if x[0] != "SEQ_CONFIG"], snap.get("ASequence")],
+        "AConfig": [dump.get("config"), [x for x in seqs if x[0] == "SEQ_CONFIG"], snap.get("AConfig")],
         "ATable": [dump.get("table"), snap.get("ATable")],
         "ANamespace": [ns.get("sorted"), snap.get("ANamespace")],
         "AMcp": [dump.get("mcp"), snap.get("AMcp")],
@@ -343,7 +354,7 @@ def run(chk, replay=None):
         rp = json.load(open(replay))["replay"]
         if isinstance(rp, dict) and "case" in rp:
             cases.append(dict(rp["case"], cls="replay"))
-    n_rand = 160 if tier == "quick" else 4000
+    n_rand = 500 if tier == "quick" else 5000
     g = Gen(rng, samples)
     for i in range(n_rand):
         n = rng.choice([3, 6, 12, 25, 40])
@@ -391,8 +402,8 @@ def run(chk, replay=None):
     # ---- model verdicts
     try:
         exprs = []
-        for c in cases:
-            ab = abstract(c)
+        for c, r in zip(cases, impl):
+            ab = abstract(c, (r.get("leader") or {}).get("results") if r.get("r") == "ok" else None)
             exprs.append("(agree %s %s %s, in_scope %s, applied %s %s)" % (
                 coq_abs(ab), coq_nats(c["batches"]), "true" if c.get("between", "settle") == "settle" else "false",
                 coq_abs(ab), coq_abs(ab), coq_nats(c["batches"])))
@@ -461,7 +472,7 @@ def run(chk, replay=None):
                 chk.violation("model != implementation (model says the paths agree on %s, the real actors differ)" % unsound,
                     {"suite": "dispatch", "case": pub, "model": m_agree, "impl": impl_agree, "correspondence": "SM.Dispatch"}, False)
             if c["via"] == "manager":
-                (la, ls), (fa, fs) = m_applied
+                la, ls, (fa, fs) = m_applied   # Coq prints ((a, b), (c, d)) as (a, b, (c, d))
                 il = r["leader"]["applied"]
                 fl = r["follower"]["applied"]
                 got = ((il["apply_manager_last_applied_log"], il["index_last_applied_log"]),
